@@ -13,7 +13,9 @@ import "net"
 const VerifExportAvailable = true
 
 // VerifEncodeValue exposes encodeValue.
-func VerifEncodeValue(packet net.Buffers, seqNo uint64) net.Buffers { return encodeValue(packet, seqNo) }
+func VerifEncodeValue(packet net.Buffers, seqNo uint64) net.Buffers {
+	return encodeValue(packet, seqNo)
+}
 
 // VerifDecodeValue exposes decodeValue.
 func VerifDecodeValue(buf []byte) (packet []byte, seqNo uint64, err error) { return decodeValue(buf) }
@@ -32,3 +34,6 @@ func VerifQueueLen(c *Client) (atLeastOnce, exactlyOnce int) {
 
 // VerifReadBufSize returns the current read buffer size.
 func VerifReadBufSize() int { return readBufSize }
+
+// VerifNewVolatile returns the library's own in-memory Persistence.
+func VerifNewVolatile() Persistence { return newVolatile() }
